@@ -125,24 +125,45 @@ fn parse_action(s: &Sexp) -> Option<Action> {
     })
 }
 
-fn show_req(r: &Request<TestOp>) -> String {
-    let k = match r.verif_kind() {
-        "never" => "n",
-        "once" => "o",
-        _ => "m",
-    };
-    format!("{}:{}:{}", r.operation.n, r.operation.v, k)
+/// one effect as seen by the shell
+#[derive(Clone, Debug)]
+struct EffView {
+    n: u32,
+    v: i64,
+    kind: char,
+    id: Option<u32>,
 }
-fn show_effs(reqs: &[Request<TestOp>]) -> String {
-    format!("E[{}]", reqs.iter().map(show_req).collect::<Vec<_>>().join(","))
+impl EffView {
+    fn show(&self) -> String {
+        match self.id {
+            Some(id) => format!("{}:{}:{}:{}", id, self.n, self.v, self.kind),
+            None => format!("{}:{}:{}", self.n, self.v, self.kind),
+        }
+    }
+    fn key(&self) -> (u32, i64, char) {
+        (self.n, self.v, self.kind)
+    }
+}
+fn show_views(vs: &[EffView]) -> String {
+    format!("E[{}]", vs.iter().map(EffView::show).collect::<Vec<_>>().join(","))
 }
 fn show_evs(evs: &[Event]) -> String {
     evs.iter().map(|e| format!("{}:{}", e.tag, e.v)).collect::<Vec<_>>().join(",")
 }
+fn kind_char(k: &str) -> char {
+    match k {
+        "never" => 'n',
+        "once" => 'o',
+        "many" => 'm',
+        _ => '?',
+    }
+}
 fn unwrap_effs(effs: Vec<Effect>) -> Vec<Request<TestOp>> {
     effs.into_iter().map(|Effect::Cap(r)| r).collect()
 }
-
+fn view_of(r: &Request<TestOp>) -> EffView {
+    EffView { n: r.operation.n, v: r.operation.v, kind: kind_char(r.verif_kind()), id: None }
+}
 fn resolve_class(r: Result<(), crux_core::ResolveError>) -> &'static str {
     match r {
         Ok(()) => "ok",
@@ -151,106 +172,222 @@ fn resolve_class(r: Result<(), crux_core::ResolveError>) -> &'static str {
     }
 }
 
+/// what one shell action made observable
+#[derive(Default)]
+struct Obs {
+    res: String,
+    effs: Vec<EffView>,
+    /// effects returned by the no-op probe event (Core-like hosts)
+    probe: Option<Vec<EffView>>,
+    /// events exposed (direct host) / applied by update during this step, trigger and probe excluded (Core-like hosts)
+    events: Vec<Event>,
+    done: Option<bool>,
+    /// host specific tail of the raw print
+    tail: String,
+}
+
+impl Obs {
+    fn raw(&self) -> String {
+        match &self.probe {
+            None => format!("{} {} V[{}] {}", self.res, show_views(&self.effs), show_evs(&self.events), self.tail),
+            Some(p) => format!("{} {} P{} {}", self.res, show_views(&self.effs), show_views(p), self.tail),
+        }
+    }
+    /// canonical projection: sorted multisets of effects (probe included) and events, done flag
+    fn canon(&self) -> String {
+        let mut e: Vec<(u32, i64, char)> =
+            self.effs.iter().chain(self.probe.iter().flatten()).map(EffView::key).collect();
+        e.sort();
+        let mut v: Vec<(u32, i64)> = self.events.iter().map(|e| (e.tag, e.v)).collect();
+        v.sort();
+        format!(
+            "E{{{}}} V{{{}}}{}",
+            e.iter().map(|(n, v, k)| format!("{n}:{v}:{k}")).collect::<Vec<_>>().join(","),
+            v.iter().map(|(t, v)| format!("{t}:{v}")).collect::<Vec<_>>().join(","),
+            match self.done {
+                Some(d) => format!(" d{}", d as u8),
+                None => String::new(),
+            }
+        )
+    }
+}
+
+trait Host {
+    /// observation before any action (direct host only)
+    fn init(&mut self) -> Option<Obs>;
+    fn step(&mut self, a: &Action) -> Option<Obs>;
+    fn finish(&mut self) -> String;
+}
+
+/// stable sort of a step's new effects by (n, v, kind): canonical request addressing
+fn canon_order<T>(canon: bool, items: &mut Vec<(EffView, T)>) {
+    if canon {
+        items.sort_by_key(|(v, _)| v.key());
+    }
+}
+
 // ---------------------------------------------------------------- direct host
 
-fn run_direct(cmd: &Cmd, acts: &[Action]) -> String {
-    let mut aborts: Aborts = vec![];
-    let mut c: Command<Effect, Event> = build(cmd, &Env::default(), &mut aborts);
-    let mut reqs: Vec<Option<Request<TestOp>>> = vec![];
-    let mut steps: Vec<String> = vec![];
-    let observe = |res: &str, c: &mut Command<Effect, Event>, reqs: &mut Vec<Option<Request<TestOp>>>| {
-        let effs = unwrap_effs(c.effects().collect());
-        let evs: Vec<Event> = c.events().collect();
-        let done = c.is_done();
-        let live = c.verif_live_tasks();
-        let s = format!("{res} {} V[{}] d{} t{}", show_effs(&effs), show_evs(&evs), done as u8, live);
-        reqs.extend(effs.into_iter().map(Some));
-        s
-    };
-    steps.push(observe("-", &mut c, &mut reqs));
-    for a in acts {
+struct DirectHost {
+    cmd: Command<Effect, Event>,
+    aborts: Aborts,
+    reqs: Vec<Option<Request<TestOp>>>,
+    canon: bool,
+}
+
+impl DirectHost {
+    fn new(cmd: &Cmd, canon: bool) -> Self {
+        let mut aborts: Aborts = vec![];
+        let c = build(cmd, &Env::default(), &mut aborts);
+        DirectHost { cmd: c, aborts, reqs: vec![], canon }
+    }
+    fn observe(&mut self, res: &str) -> Obs {
+        let effs = unwrap_effs(self.cmd.effects().collect());
+        let events: Vec<Event> = self.cmd.events().collect();
+        let done = self.cmd.is_done();
+        let live = self.cmd.verif_live_tasks();
+        let mut items: Vec<(EffView, Request<TestOp>)> = effs.into_iter().map(|r| (view_of(&r), r)).collect();
+        canon_order(self.canon, &mut items);
+        let views = items.iter().map(|(v, _)| v.clone()).collect();
+        self.reqs.extend(items.into_iter().map(|(_, r)| Some(r)));
+        Obs { res: res.into(), effs: views, probe: None, events, done: Some(done), tail: format!("d{} t{}", done as u8, live) }
+    }
+}
+
+impl Host for DirectHost {
+    fn init(&mut self) -> Option<Obs> {
+        Some(self.observe("-"))
+    }
+    fn step(&mut self, a: &Action) -> Option<Obs> {
         let res: String = match a {
-            Action::Res(k, v) => match reqs.get_mut(*k) {
+            Action::Res(k, v) => match self.reqs.get_mut(*k) {
                 None => "noreq".into(),
                 Some(None) => "gone".into(),
                 Some(Some(r)) => resolve_class(r.resolve(*v)).into(),
             },
             Action::Drop(k) => {
-                if let Some(slot) = reqs.get_mut(*k) {
+                if let Some(slot) = self.reqs.get_mut(*k) {
                     *slot = None;
                 }
                 "-".into()
             }
             Action::Abort(n) => {
-                if let Some((_, h)) = aborts.iter().find(|(m, _)| m == n) {
+                if let Some((_, h)) = self.aborts.iter().find(|(m, _)| m == n) {
                     h();
                 }
                 "-".into()
             }
             Action::Poll => "-".into(),
-            _ => return "bad-case".into(),
+            _ => return None,
         };
-        steps.push(observe(&res, &mut c, &mut reqs));
+        Some(self.observe(&res))
     }
-    steps.join(" | ")
+    fn finish(&mut self) -> String {
+        String::new()
+    }
 }
 
 // ---------------------------------------------------------------- Core host
 
 const PROBE_TAG: u32 = 999;
 
-fn run_core(prog: Prog, acts: &[Action]) -> String {
+fn reset_app(prog: Prog) {
     PROGRAM.with(|p| *p.borrow_mut() = prog);
     ABORTS.with(|a| a.borrow_mut().clear());
     REENTRANT.with(|r| *r.borrow_mut() = false);
     IN_UPDATE.with(|r| *r.borrow_mut() = false);
-    let core: Core<DslApp> = Core::new();
-    let mut reqs: Vec<Option<Request<TestOp>>> = vec![];
-    let mut steps: Vec<String> = vec![];
-    let after_call = |res: &str, effs: Vec<Request<TestOp>>, reqs: &mut Vec<Option<Request<TestOp>>>| {
-        let e = show_effs(&effs);
-        reqs.extend(effs.into_iter().map(Some));
-        let peffs = unwrap_effs(core.process_event(Event { tag: PROBE_TAG, v: 0 }));
-        let p = show_effs(&peffs);
-        reqs.extend(peffs.into_iter().map(Some));
-        let (tasks, ready, spawn, requests, events) = core.verif_stats();
-        format!("{res} {e} P{p} l{} s{tasks} q{ready}.{spawn}.{requests}.{events}", core.view().len())
-    };
-    for a in acts {
-        let s = match a {
+}
+fn abort_by_name(n: u32) {
+    ABORTS.with(|a| {
+        if let Some((_, h)) = a.borrow().iter().find(|(m, _)| *m == n) {
+            h();
+        }
+    });
+}
+/// events applied during a step: new log entries without the probe and without the shell's own event
+fn step_events(log: &[Event], old_len: usize, trigger: Option<&Event>) -> Vec<Event> {
+    let mut out: Vec<Event> = log[old_len.min(log.len())..].iter().filter(|e| e.tag != PROBE_TAG).cloned().collect();
+    if let Some(t) = trigger {
+        if out.first() == Some(t) {
+            out.remove(0);
+        }
+    }
+    out
+}
+
+struct CoreHost {
+    core: Core<DslApp>,
+    reqs: Vec<Option<Request<TestOp>>>,
+    canon: bool,
+}
+
+impl CoreHost {
+    fn new(prog: Prog, canon: bool) -> Self {
+        reset_app(prog);
+        CoreHost { core: Core::new(), reqs: vec![], canon }
+    }
+    fn record(&mut self, effs: Vec<Request<TestOp>>) -> Vec<EffView> {
+        let mut items: Vec<(EffView, Request<TestOp>)> = effs.into_iter().map(|r| (view_of(&r), r)).collect();
+        canon_order(self.canon, &mut items);
+        let views = items.iter().map(|(v, _)| v.clone()).collect();
+        self.reqs.extend(items.into_iter().map(|(_, r)| Some(r)));
+        views
+    }
+    fn after_call(&mut self, res: &str, effs: Vec<Request<TestOp>>, old_len: usize, trigger: Option<&Event>) -> Obs {
+        let effs = self.record(effs);
+        let peffs = unwrap_effs(self.core.process_event(Event { tag: PROBE_TAG, v: 0 }));
+        let probe = self.record(peffs);
+        let (tasks, ready, spawn, requests, events) = self.core.verif_stats();
+        let log = self.core.view();
+        Obs {
+            res: res.into(),
+            effs,
+            probe: Some(probe),
+            events: step_events(&log, old_len, trigger),
+            done: None,
+            tail: format!("l{} s{tasks} q{ready}.{spawn}.{requests}.{events}", log.len()),
+        }
+    }
+}
+
+impl Host for CoreHost {
+    fn init(&mut self) -> Option<Obs> {
+        None
+    }
+    fn step(&mut self, a: &Action) -> Option<Obs> {
+        let old_len = self.core.view().len();
+        Some(match a {
             Action::Ev(tag, v) => {
-                let effs = unwrap_effs(core.process_event(Event { tag: *tag, v: *v }));
-                after_call("ok", effs, &mut reqs)
+                let ev = Event { tag: *tag, v: *v };
+                let effs = unwrap_effs(self.core.process_event(ev.clone()));
+                self.after_call("ok", effs, old_len, Some(&ev))
             }
-            Action::Res(k, v) => match reqs.get_mut(*k) {
-                None => after_call("noreq", vec![], &mut reqs),
-                Some(None) => after_call("gone", vec![], &mut reqs),
-                Some(Some(r)) => match core.resolve(r, *v) {
-                    Ok(effs) => after_call("ok", unwrap_effs(effs), &mut reqs),
-                    Err(e) => after_call(resolve_class(Err(e)), vec![], &mut reqs),
+            Action::Res(k, v) => match self.reqs.get_mut(*k) {
+                None => self.after_call("noreq", vec![], old_len, None),
+                Some(None) => self.after_call("gone", vec![], old_len, None),
+                Some(Some(r)) => match self.core.resolve(r, *v) {
+                    Ok(effs) => self.after_call("ok", unwrap_effs(effs), old_len, None),
+                    Err(e) => self.after_call(resolve_class(Err(e)), vec![], old_len, None),
                 },
             },
             Action::Drop(k) => {
-                if let Some(slot) = reqs.get_mut(*k) {
+                if let Some(slot) = self.reqs.get_mut(*k) {
                     *slot = None;
                 }
-                "~".into()
+                self.after_call("~", vec![], old_len, None)
             }
             Action::Abort(n) => {
-                ABORTS.with(|a| {
-                    if let Some((_, h)) = a.borrow().iter().find(|(m, _)| m == n) {
-                        h();
-                    }
-                });
-                "~".into()
+                abort_by_name(*n);
+                self.after_call("~", vec![], old_len, None)
             }
-            _ => return "bad-case".into(),
-        };
-        steps.push(s);
+            Action::Poll => self.after_call("~", vec![], old_len, None),
+            _ => return None,
+        })
     }
-    let log = show_evs(&core.view());
-    let re = if REENTRANT.with(|r| *r.borrow()) { " REENTRANT" } else { "" };
-    format!("{} || LOG {}{}", steps.join(" | "), log, re)
+    fn finish(&mut self) -> String {
+        let re = if REENTRANT.with(|r| *r.borrow()) { " REENTRANT" } else { "" };
+        format!(" || LOG {}{}", show_evs(&self.core.view()), re)
+    }
 }
 
 // ---------------------------------------------------------------- Bridge hosts (bincode / JSON)
@@ -352,119 +489,223 @@ fn bridge_err(e: &BridgeError) -> &'static str {
     }
 }
 
-fn run_bridge(w: &dyn Wire, prog: Prog, acts: &[Action]) -> String {
-    PROGRAM.with(|p| *p.borrow_mut() = prog);
-    ABORTS.with(|a| a.borrow_mut().clear());
-    REENTRANT.with(|r| *r.borrow_mut() = false);
-    IN_UPDATE.with(|r| *r.borrow_mut() = false);
-    // K (emission index) ↦ id, and id ↦ latest K issued under it
-    let mut ids: Vec<u32> = vec![];
-    let mut latest: std::collections::HashMap<u32, usize> = Default::default();
-    let mut steps: Vec<String> = vec![];
-    let kind_of = |reg: &[(u32, &'static str)], id: u32| -> &'static str {
-        match reg.iter().find(|(i, _)| *i == id).map(|(_, k)| *k) {
-            Some("never") => "n",
-            Some("once") => "o",
-            Some("many") => "m",
-            _ => "?",
+struct BridgeHost {
+    w: Box<dyn Wire>,
+    /// K (request index) ↦ id
+    ids: Vec<u32>,
+    /// id ↦ latest K issued under it
+    latest: std::collections::HashMap<u32, usize>,
+    canon: bool,
+}
+
+impl BridgeHost {
+    fn new(w: Box<dyn Wire>, prog: Prog, canon: bool) -> Self {
+        reset_app(prog);
+        BridgeHost { w, ids: vec![], latest: Default::default(), canon }
+    }
+    fn record(&mut self, reqs: &[FfiReq]) -> Vec<EffView> {
+        let reg = self.w.registry();
+        let mut items: Vec<(EffView, ())> = reqs
+            .iter()
+            .map(|r| {
+                let EffectFfi::Cap(op) = &r.effect;
+                let kind = reg.iter().find(|(i, _)| *i == r.id.0).map(|(_, k)| kind_char(k)).unwrap_or('?');
+                (EffView { n: op.n, v: op.v, kind, id: Some(r.id.0) }, ())
+            })
+            .collect();
+        canon_order(self.canon, &mut items);
+        for (v, _) in &items {
+            self.latest.insert(v.id.unwrap(), self.ids.len());
+            self.ids.push(v.id.unwrap());
         }
-    };
-    let mut show = |reqs: &[FfiReq], ids: &mut Vec<u32>, latest: &mut std::collections::HashMap<u32, usize>| -> String {
-        let reg = w.registry();
-        let mut out = vec![];
-        for r in reqs {
-            let EffectFfi::Cap(op) = &r.effect;
-            out.push(format!("{}:{}:{}:{}", r.id.0, op.n, op.v, kind_of(&reg, r.id.0)));
-            latest.insert(r.id.0, ids.len());
-            ids.push(r.id.0);
-        }
-        format!("E[{}]", out.join(","))
-    };
-    let mut after_call = |res: &str, reqs: Vec<FfiReq>, ids: &mut Vec<u32>, latest: &mut std::collections::HashMap<u32, usize>| -> String {
-        let e = show(&reqs, ids, latest);
-        let p = match w.event(&w.enc_event(&Event { tag: PROBE_TAG, v: 0 })) {
-            Ok(b) => show(&w.dec_reqs(&b), ids, latest),
-            Err(e) => bridge_err(&e).to_string(),
+        items.into_iter().map(|(v, _)| v).collect()
+    }
+    fn log(&self) -> Vec<Event> {
+        self.w.dec_view(&self.w.view())
+    }
+    fn after_call(&mut self, res: &str, reqs: Vec<FfiReq>, old_len: usize, trigger: Option<&Event>) -> Obs {
+        let effs = self.record(&reqs);
+        let (pres, probe) = match self.w.event(&self.w.enc_event(&Event { tag: PROBE_TAG, v: 0 })) {
+            Ok(b) => {
+                let r = self.w.dec_reqs(&b);
+                ("", self.record(&r))
+            }
+            Err(e) => (bridge_err(&e), vec![]),
         };
-        let (tasks, ready, spawn, requests, events) = w.stats();
-        let reg: Vec<String> = w.registry().iter().map(|(i, k)| format!("{}:{}", i, &k[..1])).collect();
-        format!(
-            "{res} {e} P{p} l{} s{tasks} q{ready}.{spawn}.{requests}.{events} R[{}]",
-            w.dec_view(&w.view()).len(),
-            reg.join(",")
-        )
-    };
-    for a in acts {
-        let s = match a {
-            Action::Ev(tag, v) => match w.event(&w.enc_event(&Event { tag: *tag, v: *v })) {
-                Ok(b) => after_call("ok", w.dec_reqs(&b), &mut ids, &mut latest),
-                Err(e) => after_call(bridge_err(&e), vec![], &mut ids, &mut latest),
-            },
-            Action::RawEv(bytes) => match w.event(bytes) {
-                Ok(b) => after_call("ok", w.dec_reqs(&b), &mut ids, &mut latest),
-                Err(e) => after_call(bridge_err(&e), vec![], &mut ids, &mut latest),
-            },
-            Action::Res(k, _) | Action::RawRes(k, _) => {
-                let bytes = match a {
-                    Action::Res(_, v) => w.enc_val(*v),
-                    Action::RawRes(_, b) => b.clone(),
-                    _ => unreachable!(),
-                };
-                match ids.get(*k).copied() {
-                    None => after_call("noreq", vec![], &mut ids, &mut latest),
-                    Some(id) => {
-                        let live = latest.get(&id) == Some(k) && w.registry().iter().any(|(i, _)| *i == id);
-                        if !live {
-                            after_call("stale", vec![], &mut ids, &mut latest)
-                        } else {
-                            match w.response(id, &bytes) {
-                                Ok(b) => after_call("ok", w.dec_reqs(&b), &mut ids, &mut latest),
-                                Err(e) => after_call(bridge_err(&e), vec![], &mut ids, &mut latest),
-                            }
+        let (tasks, ready, spawn, requests, events) = self.w.stats();
+        let reg: Vec<String> = self.w.registry().iter().map(|(i, k)| format!("{}:{}", i, kind_char(k))).collect();
+        let log = self.log();
+        Obs {
+            res: res.into(),
+            effs,
+            probe: Some(probe),
+            events: step_events(&log, old_len, trigger),
+            done: None,
+            tail: format!("{pres}l{} s{tasks} q{ready}.{spawn}.{requests}.{events} R[{}]", log.len(), reg.join(",")),
+        }
+    }
+    fn respond(&mut self, k: usize, bytes: &[u8], old_len: usize) -> Obs {
+        match self.ids.get(k).copied() {
+            None => self.after_call("noreq", vec![], old_len, None),
+            Some(id) => {
+                let live = self.latest.get(&id) == Some(&k) && self.w.registry().iter().any(|(i, _)| *i == id);
+                if !live {
+                    self.after_call("stale", vec![], old_len, None)
+                } else {
+                    match self.w.response(id, bytes) {
+                        Ok(b) => {
+                            let r = self.w.dec_reqs(&b);
+                            self.after_call("ok", r, old_len, None)
                         }
+                        Err(e) => self.after_call(bridge_err(&e), vec![], old_len, None),
                     }
                 }
             }
-            Action::Drop(_) => "~".into(),
-            Action::Abort(n) => {
-                ABORTS.with(|a| {
-                    if let Some((_, h)) = a.borrow().iter().find(|(m, _)| m == n) {
-                        h();
-                    }
-                });
-                "~".into()
-            }
-            Action::Poll => return "bad-case".into(),
-        };
-        steps.push(s);
+        }
     }
-    let log = show_evs(&w.dec_view(&w.view()));
-    let re = if REENTRANT.with(|r| *r.borrow()) { " REENTRANT" } else { "" };
-    format!("{} || LOG {}{}", steps.join(" | "), log, re)
+    fn event(&mut self, bytes: &[u8], old_len: usize, trigger: Option<&Event>) -> Obs {
+        match self.w.event(bytes) {
+            Ok(b) => {
+                let r = self.w.dec_reqs(&b);
+                self.after_call("ok", r, old_len, trigger)
+            }
+            Err(e) => self.after_call(bridge_err(&e), vec![], old_len, None),
+        }
+    }
+}
+
+impl Host for BridgeHost {
+    fn init(&mut self) -> Option<Obs> {
+        None
+    }
+    fn step(&mut self, a: &Action) -> Option<Obs> {
+        let old_len = self.log().len();
+        Some(match a {
+            Action::Ev(tag, v) => {
+                let ev = Event { tag: *tag, v: *v };
+                let bytes = self.w.enc_event(&ev);
+                self.event(&bytes, old_len, Some(&ev))
+            }
+            Action::RawEv(bytes) => self.event(bytes, old_len, None),
+            Action::Res(k, v) => {
+                let bytes = self.w.enc_val(*v);
+                self.respond(*k, &bytes, old_len)
+            }
+            Action::RawRes(k, bytes) => self.respond(*k, bytes, old_len),
+            // a request cannot be dropped through the bridge
+            Action::Drop(_) => self.after_call("~", vec![], old_len, None),
+            Action::Abort(n) => {
+                abort_by_name(*n);
+                self.after_call("~", vec![], old_len, None)
+            }
+            Action::Poll => self.after_call("~", vec![], old_len, None),
+        })
+    }
+    fn finish(&mut self) -> String {
+        let re = if REENTRANT.with(|r| *r.borrow()) { " REENTRANT" } else { "" };
+        format!(" || LOG {}{}", show_evs(&self.log()), re)
+    }
+}
+
+// ---------------------------------------------------------------- running cases
+
+fn run_host(h: &mut dyn Host, acts: &[Action], canon: bool) -> Option<String> {
+    let mut steps = vec![];
+    if let Some(o) = h.init() {
+        steps.push(if canon { o.canon() } else { o.raw() });
+    }
+    for a in acts {
+        let o = h.step(a)?;
+        steps.push(if canon { o.canon() } else { o.raw() });
+    }
+    Some(format!("{}{}", steps.join(" | "), if canon { String::new() } else { h.finish() }))
+}
+
+fn parse_actions(s: &Sexp) -> Option<Vec<Action>> {
+    s.as_list()?.iter().map(parse_action).collect()
+}
+
+/// wrappers that must not change a command's behaviour (C04 laws / C05 nesting)
+fn wrap(name: &str, c: Cmd) -> Option<Cmd> {
+    Some(match name {
+        "done-then" => Cmd::Then(Box::new(Cmd::Done), Box::new(c)),
+        "then-done" => Cmd::Then(Box::new(c), Box::new(Cmd::Done)),
+        "done-and" => Cmd::And(Box::new(Cmd::Done), Box::new(c)),
+        "and-done" => Cmd::And(Box::new(c), Box::new(Cmd::Done)),
+        "all1" => Cmd::All(vec![c]),
+        "mapev0" => Cmd::MapEv(0, Box::new(c)),
+        "mapef0" => Cmd::MapEf(0, Box::new(c)),
+        "into" => Cmd::MapEv(0, Box::new(Cmd::MapEf(0, Box::new(c)))),
+        _ => return None,
+    })
 }
 
 fn run_case(line: &str) -> Option<String> {
     let s = sexp::parse(line)?;
     let (host, args) = s.form()?;
     match (host, args) {
-        ("direct", [c, acts]) => {
+        ("direct", [c, acts]) => run_host(&mut DirectHost::new(&parse_cmd(c)?, false), &parse_actions(acts)?, false),
+        ("core", [prog, acts]) => run_host(&mut CoreHost::new(parse_prog(prog)?, false), &parse_actions(acts)?, false),
+        ("bridge", [prog, acts]) => run_host(
+            &mut BridgeHost::new(Box::new(Bin(Bridge::new(Core::new()))), parse_prog(prog)?, false),
+            &parse_actions(acts)?,
+            false,
+        ),
+        ("jbridge", [prog, acts]) => run_host(
+            &mut BridgeHost::new(Box::new(Json(BridgeWithSerializer::new(Core::new()))), parse_prog(prog)?, false),
+            &parse_actions(acts)?,
+            false,
+        ),
+        // (law (W*) CMD HIST): CMD against W*(CMD), direct host, canonical projection
+        ("law", [ws, c, acts]) => {
             let c = parse_cmd(c)?;
-            let acts: Vec<Action> = acts.as_list()?.iter().map(parse_action).collect::<Option<_>>()?;
-            Some(run_direct(&c, &acts))
-        }
-        ("bridge" | "jbridge", [prog, acts]) => {
-            let prog = parse_prog(prog)?;
-            let acts: Vec<Action> = acts.as_list()?.iter().map(parse_action).collect::<Option<_>>()?;
-            if host == "bridge" {
-                Some(run_bridge(&Bin(Bridge::new(Core::new())), prog, &acts))
-            } else {
-                Some(run_bridge(&Json(BridgeWithSerializer::new(Core::new())), prog, &acts))
+            let mut wrapped = c.clone();
+            for w in ws.as_list()? {
+                wrapped = wrap(w.as_atom()?, wrapped)?;
             }
+            let acts = parse_actions(acts)?;
+            let a = run_host(&mut DirectHost::new(&c, true), &acts, true)?;
+            let b = run_host(&mut DirectHost::new(&wrapped, true), &acts, true)?;
+            Some(format!("A: {a} ## B: {b}"))
         }
-        ("core", [prog, acts]) => {
-            let prog = parse_prog(prog)?;
-            let acts: Vec<Action> = acts.as_list()?.iter().map(parse_action).collect::<Option<_>>()?;
-            Some(run_core(prog, &acts))
+        // (comm A B HIST): a.and(b) against b.and(a) against all[a,b] against all[b,a]
+        ("comm", [a, b, acts]) => {
+            let (a, b) = (parse_cmd(a)?, parse_cmd(b)?);
+            let acts = parse_actions(acts)?;
+            let variants = [
+                Cmd::And(Box::new(a.clone()), Box::new(b.clone())),
+                Cmd::And(Box::new(b.clone()), Box::new(a.clone())),
+                Cmd::All(vec![a.clone(), b.clone()]),
+                Cmd::All(vec![b, a]),
+            ];
+            let outs: Vec<String> =
+                variants.iter().map(|c| run_host(&mut DirectHost::new(c, true), &acts, true)).collect::<Option<_>>()?;
+            Some(format!("A: {} ## B: {} ## C: {} ## D: {}", outs[0], outs[1], outs[2], outs[3]))
+        }
+        // (hosts CMD HIST): the same command under every host; the first action of Core-like hosts is (ev 1 0)
+        ("hosts", [c, acts]) => {
+            let c = parse_cmd(c)?;
+            let acts = parse_actions(acts)?;
+            let prog: Prog = vec![(1, c.clone(), vec![])];
+            let mut core_acts = vec![Action::Ev(1, 0)];
+            core_acts.extend(acts.iter().cloned());
+            let d = run_host(&mut DirectHost::new(&c, true), &acts, true)?;
+            let k = run_host(&mut CoreHost::new(prog.clone(), true), &core_acts, true)?;
+            let mut out = format!("D: {d} ## K: {k}");
+            if !acts.iter().any(|a| matches!(a, Action::Drop(_))) {
+                let b = run_host(
+                    &mut BridgeHost::new(Box::new(Bin(Bridge::new(Core::new()))), prog.clone(), true),
+                    &core_acts,
+                    true,
+                )?;
+                let j = run_host(
+                    &mut BridgeHost::new(Box::new(Json(BridgeWithSerializer::new(Core::new()))), prog, true),
+                    &core_acts,
+                    true,
+                )?;
+                out += &format!(" ## B: {b} ## J: {j}");
+            }
+            Some(out)
         }
         _ => None,
     }
@@ -503,6 +744,9 @@ struct Gen {
     /// tags an emitted event may carry (chosen so that event-triggered commands cannot recurse forever)
     emit_tags: Vec<u32>,
     allow_abortable: bool,
+    /// give every request site its own operation number (so that sorted effects identify requests)
+    unique_ops: bool,
+    next_op: u32,
 }
 
 impl Gen {
@@ -514,6 +758,10 @@ impl Gen {
         }
     }
     fn opn(&mut self) -> u32 {
+        if self.unique_ops {
+            self.next_op += 1;
+            return self.next_op;
+        }
         // few distinct operations, so that look-alike requests are common
         1 + self.r.below(3) as u32
     }
@@ -722,10 +970,12 @@ impl Gen {
 fn gen(seed: u64, n: usize, profile: &str) {
     let out = std::io::stdout();
     let mut out = std::io::BufWriter::new(out.lock());
-    let mut g = Gen { r: Rng::new(seed), next_handle: 0, next_abort: 0, emit_tags: vec![10, 11, 12], allow_abortable: true };
+    let mut g = Gen { r: Rng::new(seed), next_handle: 0, next_abort: 0, emit_tags: vec![10, 11, 12], allow_abortable: true, unique_ops: false, next_op: 0 };
     for i in 0..n {
         g.next_abort = 0;
         g.next_handle = 0;
+        g.unique_ops = false;
+        g.next_op = 0;
         let p = match profile {
             "mix" => ["comb", "task", "core", "cancel", "bridge", "malformed"][i % 6],
             p => p,
@@ -751,6 +1001,36 @@ fn gen(seed: u64, n: usize, profile: &str) {
                 let c = g.cmd(4, 8, 4);
                 let h = g.history(10, false, &[]);
                 list(vec![atom("direct"), c.sexp(), list(h)])
+            }
+            "law" => {
+                g.emit_tags = vec![10, 11, 12];
+                g.allow_abortable = g.r.chance(1, 3);
+                let c = g.cmd(3, 6, 3);
+                let names = ["done-then", "then-done", "done-and", "and-done", "all1", "mapev0", "mapef0", "into"];
+                let nw = 1 + g.r.below(3);
+                let ws: Vec<Sexp> = (0..nw).map(|_| atom(*g.r.pick(&names))).collect();
+                let h = g.history(9, false, &[]);
+                list(vec![atom("law"), list(ws), c.sexp(), list(h)])
+            }
+            "comm" => {
+                g.emit_tags = vec![10, 11, 12];
+                g.allow_abortable = false;
+                g.unique_ops = true;
+                let a = g.cmd(3, 5, 3);
+                let b = g.cmd(3, 5, 3);
+                let h = g.history(9, false, &[]);
+                list(vec![atom("comm"), a.sexp(), b.sexp(), list(h)])
+            }
+            "hosts" => {
+                g.emit_tags = vec![10, 11, 12];
+                g.allow_abortable = g.r.chance(1, 3);
+                let c = g.cmd(4, 6, 3);
+                let mut h = g.history(9, false, &[]);
+                if g.r.chance(1, 2) {
+                    // without drops the bridges take part as well
+                    h.retain(|a| a.form().map(|(n, _)| n != "drop").unwrap_or(true));
+                }
+                list(vec![atom("hosts"), c.sexp(), list(h)])
             }
             "bridge" | "malformed" => {
                 g.allow_abortable = g.r.chance(1, 4);
